@@ -85,6 +85,9 @@ class ProgGen:
 			imports.append('from enum import Enum')
 		if use_generic:
 			imports.append('from typing import Generic, TypeVar')
+		use_iter = rng.random() < 0.6
+		if use_iter:
+			imports.append('from collections.abc import Iterator')
 		use_shadow = rng.random() < 0.7
 		if use_shadow:
 			imports.append('from typing import ClassVar')
@@ -137,6 +140,21 @@ class ProgGen:
 				'\tdef push(self, v: T) -> None:', '\t\tself.data.append(v)', '', '\tdef top(self) -> T:', '\t\treturn self.data[0]', '',
 				'\tdef all(self) -> list[T]:', '\t\treturn self.data']
 			self.count('generic')
+		it_cls = itb_cls = None
+		it_ty = rng.choice(['int', 'str', 'float'])
+		if use_iter:
+			# user iterators: the classic protocol (`__iter__` returns the object itself, `__next__` the elements), declared in either
+			# order, and an iterable that is not its own iterator (`__iter__ -> Iterator[T]`)
+			it_cls, itb_cls = self.fresh('It'), self.fresh('Seq')
+			m_iter = [f"\tdef __iter__(self) -> '{it_cls}':", '\t\treturn self', '']
+			m_next = [f'\tdef __next__(self) -> {it_ty}:', '\t\tif self.i >= len(self.items):', '\t\t\traise StopIteration()', '',
+				'\t\tself.i = self.i + 1', '\t\treturn self.items[self.i - 1]', '']
+			first, second = (m_iter, m_next) if rng.random() < 0.5 else (m_next, m_iter)
+			out += ['', '', f'class {it_cls}:', '\ti: int', f'\titems: list[{it_ty}]', '', f'\tdef __init__(self, items: list[{it_ty}]) -> None:',
+				'\t\tself.i = 0', '\t\tself.items = items', ''] + first + second
+			out += ['', f'class {itb_cls}:', f'\titems: list[{it_ty}]', '', f'\tdef __init__(self, items: list[{it_ty}]) -> None:', '\t\tself.items = items', '',
+				f'\tdef __iter__(self) -> Iterator[{it_ty}]:', '\t\treturn iter(self.items)']
+			self.count(f'iterator:{it_ty}')
 		# a helper function returning an object / optional
 		mk = self.fresh('mk')
 		out += ['', '', f'def {mk}(n: int) -> {base}:', f'\treturn {base}(n)']
@@ -210,6 +228,19 @@ class ProgGen:
 			decl(f'[w for w in {g}.all()]')
 		for c in self.shadow_calls:
 			decl(c)
+		if it_cls and itb_cls:
+			vals = {'int': '[1, 2, 3]', 'str': '["a", "bc"]', 'float': '[0.5, 1.5]'}[it_ty]
+			for cls in (it_cls, itb_cls):
+				x = self.fresh('e')
+				body.append(f'\tfor {x} in {cls}({vals}):')
+				body.append(f'\t\t{self.fresh("v")} = {x}')
+				decl(f'[{x} for {x} in {cls}({vals})]')
+				decl(f'{{{x}: 1 for {x} in {cls}({vals})}}')
+				decl(f'[[{x}, {x}] for {x} in {cls}({vals}) if {x} == {x}]')
+		# ternaries whose branches share the generic class but not its arguments: a Union of both, whichever branch runs
+		pairs = [('[a, 1]', '[b]'), ('{"k": a}', '{"k": s}'), ('(a, s)', '(s, a)'), ('[[a]]', '[[b]]'), ('{a: [a]}', '{a: [s]}'), ('[s]', '[a]')]
+		for x, y in rng.sample(pairs, 2):
+			decl(f"{x} if {rng.choice(['p', 'not p', 'a > 2'])} else {y}")
 		# loops
 		i, y = self.fresh('i'), self.fresh('y')
 		body.append(f'\tfor {i}, {y} in enumerate({lst}):')
